@@ -34,7 +34,13 @@ var c15Uniq int64
 // genLazySpec generates an expression that contains at least one lazily initialised node.
 func genLazySpec(dt *drv.T, c *Ctx) *GenSpec {
 	inner := GenGenSpec(dt, GenCfg{Depth: c.Pick(1, 2), SmallInts: true, Custom: true, Make: true, BigRegexp: false})
-	switch pick(dt, "lazy", "deferred", "deferred", "regexp", "runetable", "string", "custom", "oneof-mix", "make", "make", "perm", "bytes", "sparsefilter") {
+	switch pick(dt, "lazy", "deferred", "deferred", "regexp", "runetable", "string", "custom", "oneof-mix", "make", "make", "perm", "bytes", "sparsefilter", "recdef") {
+	case "recdef":
+		// a self-referential Deferred generator, hundreds of levels deep in every check at the same time (costly: rare)
+		if chance(dt, "recdef", 25) {
+			return &GenSpec{K: "recdef"}
+		}
+		return &GenSpec{K: "deferred", Sub: []*GenSpec{inner}}
 	case "sparsefilter":
 		// a predicate that accepts one value in 7..12: with a few hundred evaluations on one generator object, anything
 		// the generator learns from its own history shows up as a difference to the run that uses it alone
@@ -76,6 +82,10 @@ func (c15) Gen(dt *drv.T, c *Ctx) any {
 	cs.Draws = drv.IntRange(1, 3).Draw(dt, "draws")
 	if cs.Spec.K == "filter" {
 		cs.Checks = drv.IntRange(20, 60).Draw(dt, "manychecks")
+	}
+	if cs.Spec.K == "recdef" {
+		cs.P, cs.Draws = 8, 1
+		cs.Strings = []int{-1, -1, -1, -1, -1, -1, -1, -1}
 	}
 	return cs
 }
